@@ -820,7 +820,15 @@ class CollapseOracle(object):
                 m = r['m']; npts = self.npts; o = 2 * sum(npts[:m])
                 zero = set(q['i'] for q in rels if q['kind'] == 'w0')
                 if all((o + k) in zero for k in range(npts[m])): continue
-                return r, 'weight x[%d]=%r is not zero' % (r['i'], x[r['i']]), None
+                # ... likewise when every OTHER weight of the measure is already zero (masked by the user or collapsed)
+                if all(x[o + k] == 0.0 for k in range(npts[m]) if (o + k) != r['i']): continue
+                # a position collapse applied by an EARLIER Collapse() call runs after this one and moves the weight of its
+                # second point onto its first: it can refill a weight that this collapse has just zeroed
+                npos = o + npts[m]
+                loc = r['i'] - o
+                c = 'weight_refilled_by_tie' if any(q['kind'] == 'ptie' and q['m'] == m and q['from'] < r['from'] and
+                                                   loc in (q['i'] - npos, q['j'] - npos) for q in rels) else None
+                return r, 'weight x[%d]=%r is not zero' % (r['i'], x[r['i']]), c
             if r['kind'] == 'ptie' and x[r['i']] != x[r['j']]:
                 g = pfind(r['i']); batch = (r['from'], r['doc'])
                 c = 'ties_from_several_collapses' if any(pfind(q['i']) == g and (q['from'], q['doc']) != batch for q in pt) else None
